@@ -313,7 +313,7 @@ Fire(call, a, res) ==
   /\ mach' = Exec(mach, res.lines)
   /\ sb' = IF res.out = "ok" /\ call \in {"tool_on", "power_on"} THEN call ELSE sb
   /\ ev' = [call |-> call, out |-> res.out, a |-> a, lines |-> res.lines, rep |-> res.rep,
-            hooks |-> res.hooks, ph |-> ph, sh |-> FALSE]
+            hooks |-> res.hooks, ph |-> ph, sh |-> FALSE, fault |-> FALSE]
 
 Move(call) ==
   \E ax \in AxArgs(IF rep.rel THEN Deltas ELSE Coords), F \in OptVals, S \in OptVals :
@@ -419,7 +419,7 @@ RemoveHook == /\ ph /\ Fire("remove_probe_hook", A0, Ok(rep, <<>>)) /\ ph' = FAL
 
 Init ==
   /\ rep = InitRep /\ ctx = <<>> /\ mach = InitMachine /\ sb = "none" /\ ph = FALSE
-  /\ ev = [call |-> "init", out |-> "ok", a |-> A0, lines |-> <<>>, rep |-> InitRep, hooks |-> <<>>, ph |-> FALSE, sh |-> FALSE]
+  /\ ev = [call |-> "init", out |-> "ok", a |-> A0, lines |-> <<>>, rep |-> InitRep, hooks |-> <<>>, ph |-> FALSE, sh |-> FALSE, fault |-> FALSE]
 
 Next ==
   \/ Move("move") \/ Move("rapid") \/ Bypass("move_absolute") \/ Bypass("rapid_absolute")
